@@ -56,9 +56,7 @@ func (f *Letx) Call(s *slip.Scope, args slip.List, depth int) (result slip.Objec
 	for _, binding := range bindings {
 		switch tb := binding.(type) {
 		case slip.Symbol:
-			if 0 < len(ns.Vars) {
-				ns = ns.NewScope()
-			}
+			ns = ns.NewScope()
 			ns.Let(tb, nil)
 		case slip.List:
 			if len(tb) < 1 {
@@ -72,12 +70,10 @@ func (f *Letx) Call(s *slip.Scope, args slip.List, depth int) (result slip.Objec
 			if 1 < len(tb) {
 				value = slip.EvalArg(ns, tb, 1, d2)
 			}
-			if 0 < len(ns.Vars) {
-				// Each binding is visible to the init forms after it only.
-				// A closure made by an earlier init form must not see it
-				// so it goes into a scope of its own.
-				ns = ns.NewScope()
-			}
+			// Each binding is visible to the init forms after it only. A
+			// closure made by its own or an earlier init form must not
+			// see it so it goes into a scope of its own.
+			ns = ns.NewScope()
 			ns.Let(sym, value)
 		default:
 			slip.TypePanic(s, depth, "let* binding", f, "list", "symbol")
